@@ -88,8 +88,7 @@ def replay_history(job):
         fnet, fk = H.NETS[job["net"]]()
         # normalise what the first calculation is known to be allowed to need: nothing. (fresh = as built)
         for key in applied:
-            tbl, col, idx, val = fk[key]
-            fnet[tbl].loc[idx, col] = val
+            H.apply_knob(fnet, fk[key])
         if uop is not None:
             H.apply_edit(fnet, fk, uop, {})
         fsvec = None
@@ -105,8 +104,7 @@ def replay_history(job):
                 fsvec = None
                 fnet, fk = H.NETS[job["net"]]()
                 for key in applied:
-                    tbl, col, idx, val = fk[key]
-                    fnet[tbl].loc[idx, col] = val
+                    H.apply_knob(fnet, fk[key])
                 if uop is not None:
                     H.apply_edit(fnet, fk, uop, {})
         foc = _run(fnet, op, fsvec)
@@ -163,6 +161,8 @@ def main():
     hs = [h for h in hs if sum(1 for o in h if o["op"] == "run") >= 1]
     jobs = [{"id": "%s%d" % (n[0], i), "net": n, "hist": h} for i, h in enumerate(hs)
             for n in ("heating_loop", "branched")]
+    # histories with structural edits also on the net whose structural edit relabels a row (results must follow the new labels)
+    jobs += [{"id": "r%d" % i, "net": "branched_relabel", "hist": h} for i, h in enumerate(hs) if any(o["op"] == "struct_off" for o in h)]
     cases = core.pmap(replay_history, jobs, chunksize=4)
     by_id = {c["id"]: c for c in cases}
     res, fails = validate(cases)
